@@ -1,6 +1,10 @@
 """C07 — reading any bytes either fails cleanly or yields a safe, well-formed table.
-Proof: PsV/Props/C07.lean (C07_read_total, C07_error_leaves_empty, WF_implies_C04, readFixed_sound, counterexamples for the code
-before the repair).  Model: PsV/Model/FitsRead.lean (`readFixed` = read_fits_core with fixes/C07-1.diff, `cleanup` = the storage guard of commit 907b348, `destroy` = ~splinetable).
+Proof: PsV/Props/C07.lean (C07_read_total, WF_implies_C04, readFixed_sound, counterexamples for the code before the repair;
+the object step by step: C07_guarded_refines, C07_rejected_leaves_empty, C07_accepted_object, C07_reuse; composition with C04/C05 for
+every accepted table: C07_accepted_lookup_safe, C07_accepted_eval_reads_owned, C07_read_then_use_safe, C07_accepted_eval_wf; bytes:
+C07_bytes_framed, C07_bytes_total).  Model: PsV/Model/FitsRead.lean (`readFixed` = read_fits_core with fixes/C07-1.diff, `cleanup` = the storage guard of commit 907b348, `destroy` = ~splinetable).
+Second model run (driver C07, command L): the step-by-step reader on the object (`readGuarded`) and 12 deterministic lookup probes on
+`Table.lookupAxes` of the table read, compared with the real searchcenters on the table read_fits returned (harness field lk=).
 Tie: mutated files → real read_fits_mem / read_fits / constructor / C wrappers (each file in a forked child under ASan/UBSan with a
 hang timeout) vs `readFixed (decodeFits bytes)` whenever the Lean decoder accepts the bytes and the store is inside the scope of the
 abstract cfitsio model; oracle (independent of the model): every returned table is well-formed (fitscommon.wf_table), every failed
@@ -75,15 +79,22 @@ def run(ctx, only=None):
     t0 = time.time()
     if not ctx.driver_ok() or not ctx.run_driver("C06", drv_in, drv_out):
         broken("driver failed"); return
-    ctx.note("model driver: %.1fs" % (time.time() - t0))
-    R2, Lm = lines(outfile), lines(drv_out)
-    if len(R2) != 2 * len(files) or len(Lm) != len(files):
-        broken("line counts differ", counts=[len(files), len(R2), len(Lm)]); return
+    # second model run: the step-by-step reader on the object (readGuarded) and the lookup view of the read table
+    drv2_in, drv2_out = base + ".drv2", base + ".model2"
+    with open(drv2_in, "w") as f:
+        for i, (cls, b) in enumerate(files): f.write("L m%d:%s %s\n" % (i, cls, b.hex()))
+    if not ctx.run_driver("C07", drv2_in, drv2_out):
+        broken("driver C07 failed"); return
+    ctx.note("model drivers: %.1fs" % (time.time() - t0))
+    R2, Lm, Lg = lines(outfile), lines(drv_out), lines(drv2_out)
+    if len(R2) != 2 * len(files) or len(Lm) != len(files) or len(Lg) != len(files):
+        broken("line counts differ", counts=[len(files), len(R2), len(Lm), len(Lg)]); return
     R = [(R2[2 * i], R2[2 * i + 1]) for i in range(len(files))]
 
     classes, verdicts, modelled, nontrivial = {}, {}, {"compared": 0, "undecodable": 0, "unmodelled": 0}, set()
     reported = set()
-    for (cls, b), (rd, rm), m in zip(files, R, Lm):
+    lookups = {"files": 0, "probes": 0, "accepted": 0, "rejected": 0}
+    for (cls, b), (rd, rm), m, mg in zip(files, R, Lm, Lg):
         classes[cls] = classes.get(cls, 0) + 1
         name = rd.split(" ")[1]
         rep = {"class": cls, "hex": b.hex() if len(b) <= 120000 else b[:120000].hex(), "bytes": len(b), "impl_disk": rd[:3000], "impl_mem": rm[:2000], "model": m[:600], "replay_cmd": replay_cmd}
@@ -151,13 +162,32 @@ def run(ctx, only=None):
         if mv != real or (mv == "ok" and m.partition(" | ")[2] != dump):
             if os.environ.get("PSV_C07_DEBUG"): open(os.environ["PSV_C07_DEBUG"], "a").write(m + "\n" + rd + "\n")
             broken("repaired reader model vs real reader", cls=cls, model=m[:400], impl=rd[:400], hex=rep["hex"][:20000])
+        # ---- second tie: guarded read on the object, lookup on the view of the read table
+        gw = mg.split(" ")
+        if len(gw) < 4 or gw[2] != mw[2] or (gw[2] == "err" and gw[3] != mw[3]):
+            broken("step-by-step reader (readGuarded) and readFixed print different verdicts", cls=cls, model=m[:200], model2=mg[:200])
+        elif gw[2] == "err":
+            if gw[4] != "guard=empty": broken("model: guarded read does not leave the empty object", model2=mg[:300])
+        else:
+            g = dict(x.split("=", 1) for x in gw[3:])
+            if g.get("guard") != "done": broken("model: object after an accepted read is not complete / not destructible", model2=mg[:300])
+            if mv == real == "ok" and kv.get("lk", "-") != "-":
+                lookups["files"] += 1
+                pr = kv["lk"].split(";")
+                lookups["probes"] += len(pr)
+                lookups["rejected"] += sum(1 for x in pr if x == "R")
+                lookups["accepted"] += sum(1 for x in pr if x not in ("R", "X"))
+                if g.get("lk") != kv["lk"]:
+                    broken("lookup on the model's view of the read table vs real searchcenters on the table read_fits returned", cls=cls, model=g.get("lk"), impl=kv["lk"], hex=rep["hex"][:20000])
         if len(ctx.coverage["samples"]) < 5 and real != "ok":
             ctx.coverage["samples"].append({"class": cls, "real": real, "model": " ".join(mw[2:5])})
     ctx.coverage["evaluations"] = len(files)
     ctx.coverage["distinct_nontrivial"] = len(nontrivial)
     ctx.coverage["rule"] = ("files = valid base files (harness generator, VERIF_SEED), systematic truncation at every 2880 boundary of 3 of them, random mutations "
                             "(bin/props/fitsmut.py, random.Random(VERIF_SEED)); distinct non-trivial = distinct well-formed tables returned + distinct (error site, mutation class) pairs")
-    ctx.coverage["input_distribution"] = {"mutation_classes": classes, "real_verdicts": verdicts, "model_tie": modelled}
+    ctx.coverage["input_distribution"] = {"mutation_classes": classes, "real_verdicts": verdicts, "model_tie": modelled, "lookup_tie": lookups}
+    if only is None and (lookups["files"] == 0 or lookups["accepted"] == 0 or lookups["rejected"] == 0):
+        broken("lookup tie did not run on any accepted table (or saw only one kind of outcome)", lookups=lookups)
     ctx.assumptions += [
         "cfitsio's own parser is outside the model: files the Lean decoder rejects (byte flips in structural cards, truncation, integer BITPIX, BSCALE/BZERO, non-FITS) are covered by the sanitizer battery and the oracle only",
         "model scope (`modelledE`): standard keyword names, unique keys, ORDERn values in plain integer syntax, PERIODn in plain decimal syntax, sizes below 2^63",
